@@ -533,7 +533,7 @@ pub fn decode(htx: &[u8], key: &[u8], val: &[u8]) -> Decoded {
             if hb != b {
                 errs.push((
                     Clause::Placement,
-                    format!("key {} is in bucket {b} but hashes to bucket {hb}", crate::util::show(&k)),
+                    format!("key {} is in bucket {b} but hashes to bucket {hb}", show_key(&k)),
                 ));
             }
             // value record
@@ -574,7 +574,7 @@ pub fn decode(htx: &[u8], key: &[u8], val: &[u8]) -> Decoded {
                 }
             }
             if d.contents.contains_key(&k) {
-                errs.push((Clause::DupKey, format!("key {} appears twice", crate::util::show(&k))));
+                errs.push((Clause::DupKey, format!("key {} appears twice", show_key(&k))));
             } else if let Some(v) = value {
                 d.contents.insert(k.clone(), v);
             }
@@ -676,4 +676,15 @@ pub fn value_slot_for(len: u64) -> u64 {
 pub fn key_slot_for(key_len: u64, val_off: u64, next_off: u64) -> u64 {
     let rec = vu_len(key_len) as u64 + key_len + vu_len(val_off / 8) as u64 + vu_len(next_off / 8) as u64;
     class_roundup(vu_len((rec + 7) / 8) as u64 + rec)
+}
+
+fn show_key(b: &[u8]) -> String {
+    let mut s = String::from("x");
+    for x in b.iter().take(24) {
+        s.push_str(&format!("{:02x}", x));
+    }
+    if b.len() > 24 {
+        s.push_str(&format!("..({} bytes)", b.len()));
+    }
+    s
 }
